@@ -6,6 +6,7 @@ import Driver.Hist
 import Jamm.Model.FileCheck
 import Jamm.Gen.Layout
 import Jamm.Gen.HashOrder
+import Driver.Sha3
 open Jamm
 
 namespace Driver
@@ -52,7 +53,7 @@ structure FileReport where
 the page store for the first decode error among pages reached -/
 def checkBytes (L : Layout) (order : List MetaField) (ba : ByteArray) (pagesize : Nat) : FileReport :=
   let s := srcOf ba
-  match openSelect L order s pagesize with
+  match openAny L order Gen.oldHashOrder Sha3.sha3_256 s pagesize with
   | .error e => { ok := false, msg := fmtFileErr (.open_ e) }
   | .ok mt =>
     let pg : PageStore := fun pid =>
